@@ -36,7 +36,7 @@ Definition carried_first (reqs : list request) : list request :=
   filter (fun r => match r with RCarry _ => false | _ => true end) reqs.
 
 Section Engine.
-  Variable break_when_empty : bool.   (* MRGN: `if not allocable: break` at the top of every iteration *)
+  Variable break_when_empty : bool.   (* MRGN: `if not allocable: break` when an index-less location finds no index left *)
   Variable carry_checks_used : bool.  (* editors: a carried index is placed only when still unused *)
   Variable carry_range : option (N * N).  (* MRGN: a carried index outside [lo, hi] raises ValueError *)
 
@@ -44,9 +44,6 @@ Section Engine.
     match reqs with
     | [] => Ok []
     | r :: rest =>
-        if break_when_empty && match free with [] => true | _ => false end
-        then Ok (map (fun _ => Unplaced) reqs)
-        else
           match r with
           | RCarry k =>
               if match carry_range with Some (lo, hi) => (k <? lo) || (hi <? k) | None => false end
@@ -58,7 +55,7 @@ Section Engine.
           | RSkip => do o <- engine rest used free; Ok (Reused :: o)
           | RFresh =>
               match free with
-              | [] => Raise ValueError
+              | [] => if break_when_empty then Ok (map (fun _ => Unplaced) reqs) else Raise ValueError
               | i :: free' => do o <- engine rest (i :: used) free'; Ok (Placed i :: o)
               end
           end
@@ -86,9 +83,9 @@ Definition add_cuwp_slots (existing : list N) (reqs : list request) : result (li
 Definition add_wav_files (existing : list N) (reqs : list request) : result (list outcome) :=
   engine false true None reqs existing (free_ids 0 MAX_WAV_FILES [] existing).
 
-(* RichSwnmEditor.add_switches: ids 0..MAX_SWITCHES-1; set iteration order as given *)
+(* RichSwnmEditor.add_switches: ids 0..MAX_SWITCHES-1; carried first, otherwise the set's iteration order as given *)
 Definition add_switches (existing : list N) (reqs : list request) : result (list outcome) :=
-  engine false true None reqs existing (free_ids 0 MAX_SWITCHES [] existing).
+  engine false true None (carried_first reqs) existing (free_ids 0 MAX_SWITCHES [] existing).
 
 (* RichSwnmRebuilder: ids not carried by any used switch; a carried index always takes its slot;
    an index >= MAX_SWITCHES is an IndexError on the 256-element list *)
